@@ -210,13 +210,13 @@ class Ctx:
             if known is True:
                 r_t, m_t = z3.sat, m
             else:
-                r_t = self._check(cond)
+                r_t = self._check_branch(cond)
                 if r_t == z3.sat:
                     m_t = self.solver.model()
             if known is False:
                 r_f, m_f = z3.sat, m
             else:
-                r_f = self._check(z3.Not(cond))
+                r_f = self._check_branch(z3.Not(cond))
                 if r_f == z3.sat:
                     m_f = self.solver.model()
             if r_t == z3.unknown or r_f == z3.unknown:
@@ -237,7 +237,25 @@ class Ctx:
         f = cond if choice else z3.Not(cond)
         self.pc.append(f)
         self.solver.add(f)
+        if _quantifier_free(f):
+            self.qf.add(f)
         return choice
+
+    def _check_branch(self, cond):
+        """feasibility of one side of a branch; with quantified axioms on the path the quantifier-free twin is asked first: its
+        'unsat' is conclusive (it holds a subset of the path's assumptions), anything else goes to the path solver"""
+        if self.has_quant:
+            t0 = time.time()
+            self.qf.push()
+            self.qf.add(cond)
+            self.qf.set("timeout", 3000)
+            r = self.qf.check()
+            self.qf.pop()
+            self.queries += 1
+            self.solver_s += time.time() - t0
+            if r == z3.unsat:
+                return z3.unsat
+        return self._check(cond)
 
 
 def ctx() -> Ctx:
